@@ -782,6 +782,40 @@ def suppress(ctx: Any) -> List[Ob]:
     return obs
 
 
+@rule('C03.OFFERED', 'D', expect_min=10)
+def offered(ctx: Any) -> List[Ob]:
+    """What answers the questions is actually offered: each of the three routines that file an answer set (QU, unicast
+    source, multicast) puts it into at least one of the four reply buckets, for every combination of (probe, recently
+    multicast, seen in the last second, question shape) -- no combination lets the records of a registered service fall
+    through unanswered.  (Which bucket is right is C11.ROUTE / C12.ROUTE; this is the `exactly the records ... are offered` part.)"""
+    from .c11 import _bucket_eff, QR
+
+    R = 'C03.OFFERED'
+    prog = ctx.prog
+    obs: List[Ob] = []
+    g = prog.func(QR + '.add_qu_question_response')
+    me = g.params[0]
+    for probe in (False, True):
+        for recent in (False, True):
+            oc, und = traces(ctx, g, {f'{me}._is_probe': probe, '._has_mcast_within_one_quarter_ttl()': recent}, _bucket_eff(me), loop_bound=1, for_iter=lambda n, e: True)
+            got = {frozenset(strip_ret(t)) for t in oc}
+            obs.append(ob(R, g, f'QU answer set: probe={probe}, multicast within a quarter TTL={recent}', 'the records are filed in at least one reply bucket', bool(got) and all(got) and not und, f'buckets per path: {[sorted(x) for x in got]}'))
+    h = prog.func(QR + '.add_mcast_question_response')
+    me = h.params[0]
+    for probe in (False, True):
+        for last_second in (False, True):
+            for nq, qtype in ((1, 33), (1, 12), (2, 33)):
+                oc, und = traces(ctx, h, {f'{me}._is_probe': probe, '._has_mcast_record_in_last_second()': last_second, f'{me}._questions': ['Q'] * nq, '.type': qtype}, _bucket_eff(me), loop_bound=1, for_iter=lambda n, e: True)
+                got = {frozenset(strip_ret(t)) for t in oc}
+                obs.append(ob(R, h, f'multicast answer set: probe={probe} seen<1s={last_second} questions={nq} type={qtype}', 'the records are filed in at least one reply bucket', bool(got) and all(got) and not und, f'buckets per path: {[sorted(x) for x in got]}'))
+    u = prog.func(QR + '.add_ucast_question_response')
+    me = u.params[0]
+    oc, und = traces(ctx, u, {}, _bucket_eff(me), loop_bound=1, for_iter=lambda n, e: True)
+    got = {frozenset(strip_ret(t)) for t in oc}
+    obs.append(ob(R, u, 'answer set for a unicast source', 'the records are filed in the unicast bucket', bool(got) and all('UCAST' in x for x in got)))
+    return obs
+
+
 EXPLANATION = (
     'C03.INDEX (necessary condition): add/remove sibling agreement over the three registry indexes and bucket hygiene for every '
     'index whose key set is observable. C03.KEYS (decided): lower-case provenance of every registry key, through call sites. '
@@ -796,4 +830,4 @@ EXPLANATION_ADDENDUM = (
 )
 EXPLANATION = EXPLANATION + EXPLANATION_ADDENDUM
 
-RULES = [index, keys, dispatch, ttlclass, memo, addl, addrnsec, suppress]
+RULES = [index, keys, dispatch, ttlclass, memo, addl, addrnsec, suppress, offered]
